@@ -364,6 +364,8 @@ func runCase(ctx *core.Ctx, h *hops, cc *ccase) {
 			tunnel = nil
 		}
 	}
+	// the same configuration with its upstream proxies unreachable: what the CLIENT is told
+	downPass(ctx, h, &fc, cc)
 }
 
 func hasClose(res *rig.Msg) bool {
@@ -1099,7 +1101,7 @@ func Replay(ctx *core.Ctx, raw json.RawMessage) {
 	json.Unmarshal(raw, &k)
 	var cc ccase
 	switch k.Kind {
-	case "one":
+	case "one", "down":
 		var o oneReq
 		if err := json.Unmarshal(raw, &o); err != nil {
 			core.Fatalf("bad C06 case: %v", err)
